@@ -152,3 +152,21 @@ Definition step_delta (st : state) (o : op) : pp :=
   end.
 
 Definition st_credited (st : state) : pp := credited (st_tbl st) (st_part st).
+
+(* boolean caller obligations, for concrete witnesses *)
+Definition sector_ok_b (s : sector) : bool :=
+  (0 <=? s_raw s) && (0 <=? s_qa s) && (0 <=? s_pledge s) && (0 <=? s_fee s).
+Definition op_wf_b (st : state) (o : op) : bool :=
+  match o with
+  | AddSectors _ secs => bool_decide (NoDup (map s_num secs)) && forallb sector_ok_b secs
+  | ReplaceSectors old new =>
+      bool_decide (NoDup (map s_num new)) && forallb sector_ok_b new &&
+      forallb (fun s => bool_decide (s_num s ∈ (list_to_set old : gset N))
+                        || bool_decide (s_num s ∉ sectors (st_part st))) new
+  | _ => true
+  end.
+Fixpoint all_wf_b (st : state) (ops : list op) : bool :=
+  match ops with
+  | [] => true
+  | o :: r => op_wf_b st o && all_wf_b (next st o) r
+  end.
